@@ -841,6 +841,91 @@ def at_path(g, path):
     return g
 
 
+def strict_boundary_part(ctx):
+    """Typed edges that CROSS a nested boundary (strict mode): an outer producer feeding a parameter that several inner nodes
+    consume, and several exclusive inner producers of one output feeding an outer consumer, with the inner nodes listed in
+    every order, the GraphNode possibly renamed.  The constructor's verdict must be the verdict on the SAME nodes in one flat
+    graph, and both must be: accepted iff every (producer type, consumer type) pair is compatible."""
+    import itertools
+    from hypergraph import Graph
+    from hypergraph.graph.validation import GraphConfigError
+    from hypergraph.nodes import FunctionNode, IfElseNode
+    rng = ctx.rng
+    T = {"int": int, "str": str, "float": float}
+
+    def fn(name, params, out, ret):
+        src = f"def {name}({', '.join(params)}):\n    return 0\n"
+        ns = {}
+        exec(src, ns)  # noqa: S102 - generated from fixed names
+        f = ns[name]
+        f.__annotations__ = {**{p: T[t] for p, t in params.items() if t}, **({"return": T[ret]} if ret else {})}
+        return FunctionNode(f, name=name, output_name=out)
+
+    def verdict(build):
+        try:
+            build()
+            return "accepted"
+        except GraphConfigError as e:
+            return "rejected:" + str(e).strip().split("\n")[0][:40]
+        except Exception as e:  # noqa: BLE001
+            return f"crash:{type(e).__name__}"
+    n = 0
+    for _ in range(ctx.n(60, 500)):
+        direction = rng.choice(["consumers", "producers"])
+        k = rng.randint(2, 3)
+        tys = [rng.choice(["int", "int", "str", "float"]) for _ in range(k)]
+        outer_ty = rng.choice(["int", "str"])
+        perm = list(range(k))
+        rng.shuffle(perm)
+        rename = rng.random() < 0.3
+        if direction == "consumers":
+            prod = fn("prod", {}, "v", outer_ty)
+            cons = [fn(f"c{i}", {"v": tys[i]}, f"o{i}", "int") for i in range(k)]
+            inner_nodes = [cons[i] for i in perm]
+
+            def nested():
+                gn = Graph(inner_nodes, name="inner").as_node()
+                if rename:
+                    gn = gn.with_inputs(v="vv")
+                    return Graph([fn("prod", {}, "vv", outer_ty), gn], strict_types=True)
+                return Graph([prod, gn], strict_types=True)
+            flat = lambda: Graph([prod] + inner_nodes, strict_types=True)  # noqa: E731
+            expected_ok = all(t == outer_ty for t in tys)
+        else:
+            if k == 3:
+                k = 2
+                tys = tys[:2]
+                perm = [p for p in perm if p < 2]
+
+            def g_(c: int) -> bool:
+                return c > 0
+            gate = IfElseNode(g_, when_true="p0", when_false="p1", name="gate")
+            prods = [fn(f"p{i}", {"c": "int"}, "w", tys[i]) for i in range(2)]
+            inner_nodes = [gate] + [prods[i] for i in perm]
+            use = fn("use", {"w": outer_ty}, "z", "int")
+
+            def nested():
+                gn = Graph(inner_nodes, name="inner").as_node()
+                if rename:
+                    gn = gn.with_outputs(w="ww")
+                    return Graph([gn, fn("use", {"ww": outer_ty}, "z", "int")], strict_types=True)
+                return Graph([gn, use], strict_types=True)
+            flat = lambda: Graph(inner_nodes + [use], strict_types=True)  # noqa: E731
+            expected_ok = all(t == outer_ty for t in tys)
+        vn, vf = verdict(nested), verdict(flat)
+        n += 2
+        case = {"family": "strict_boundary", "direction": direction, "outer_type": outer_ty, "inner_types_in_list_order": [tys[i] for i in perm], "renamed": rename}
+        if vn.startswith("crash") or vf.startswith("crash"):
+            ctx.violation("oracle", f"constructor crashed: nested {vn}, flat {vf}", case=case)
+        elif (vn == "accepted") != expected_ok:
+            ctx.violation("oracle", f"strict_types across a nested boundary: the constructor {vn.split(':')[0]} a graph whose typed pairs are "
+                          f"{'all compatible' if expected_ok else 'NOT all compatible'} (outer {outer_ty} vs inner {case['inner_types_in_list_order']}); "
+                          f"the same nodes in one flat graph are {vf.split(':')[0]}", case=case)
+        elif (vf == "accepted") != expected_ok:
+            ctx.violation("oracle", f"strict_types on the flat graph: {vf} but pairs compatible = {expected_ok}", case=case)
+    return n
+
+
 # =========================================================================== driver
 
 
@@ -982,6 +1067,9 @@ def run(ctx):
         except ValueError as e:
             ctx.violation("harness", f"cannot describe the graph to the model: {e}", case={"graph": g})
     res = batch.run()
+    n_boundary = strict_boundary_part(ctx)
+    n_eval += n_boundary
+    dist["strict_boundary_constructions"] = n_boundary
     if res["error"]:
         ctx.violation("harness", res["error"])
     for (k, code, mv, real, mexp) in res["failed"]:
